@@ -18,9 +18,10 @@ struct Res {
     n_tags: usize,
     tags: Vec<Option<String>>,
     tokenized: String,
+    cands: Vec<Vec<Vec<(String, i32)>>>,
 }
 
-fn run_one<'p>(p: &'p Predictor, s: &mut Sentence<'static, 'p>, text: &str, tags: bool) -> Res {
+fn run_one<'p>(p: &'p Predictor, s: &mut Sentence<'static, 'p>, text: &str, tags: bool, stored: bool) -> Res {
     s.update_raw(text.to_string()).expect("valid text");
     p.predict(s);
     if tags {
@@ -34,6 +35,13 @@ fn run_one<'p>(p: &'p Predictor, s: &mut Sentence<'static, 'p>, text: &str, tags
         n_tags: s.n_tags(),
         tags: s.tags().iter().map(|t| t.as_ref().map(|c| c.to_string())).collect(),
         tokenized,
+        cands: if tags && stored {
+            s.iter_tokens()
+                .map(|t| t.tag_candidates().into_iter().map(|c| c.into_iter().map(|(n, x)| (n.to_string(), x)).collect()).collect())
+                .collect()
+        } else {
+            vec![]
+        },
     }
 }
 
@@ -61,16 +69,28 @@ pub fn run_c08t(ctx: &mut Ctx, from: u64, to: u64, tiny: bool, threads_max: usiz
         }
         let n_threads = if tiny { 2 } else { rng.urange(2, threads_max.max(2)) };
         let rounds = if tiny { 1 } else { rng.urange(2, 20) };
+        let stored = rng.chance(1, 2);
+        let fresh_shared = rng.chance(2, 3);
         let r = guard(|| -> Result<(u64, Vec<String>), String> {
-            let p = Arc::new(new_predictor(&case.model, tags)?);
-            // sequential baseline on fresh sentences
+            let make = || -> Result<Predictor, String> {
+                let mut p0 = new_predictor(&case.model, tags)?;
+                if tags {
+                    p0.store_tag_scores(stored);
+                }
+                Ok(p0)
+            };
+            // sequential baseline on fresh sentences, computed with a SEPARATE predictor object:
+            // the shared one below is brand new when the threads start (first-use effects included)
+            let pb = make()?;
             let base: Vec<Res> = texts
                 .iter()
                 .map(|t| {
                     let mut s = Sentence::default();
-                    run_one(&p, &mut s, t, tags)
+                    run_one(&pb, &mut s, t, tags, stored)
                 })
                 .collect();
+            let p = Arc::new(if fresh_shared { make()? } else { pb });
+            let barrier = Arc::new(std::sync::Barrier::new(n_threads));
             let base = Arc::new(base);
             let texts = Arc::new(texts.clone());
             let mut handles = vec![];
@@ -78,17 +98,22 @@ pub fn run_c08t(ctx: &mut Ctx, from: u64, to: u64, tiny: bool, threads_max: usiz
                 let p = Arc::clone(&p);
                 let base = Arc::clone(&base);
                 let texts = Arc::clone(&texts);
+                let barrier = Arc::clone(&barrier);
                 let seed = rng.next_u64() ^ ti as u64;
                 handles.push(std::thread::spawn(move || {
+                    barrier.wait();
                     let mut r = Rng::new(seed);
                     let mut order: Vec<usize> = (0..texts.len()).collect();
                     let mut s = Sentence::default();
                     let mut bad = vec![];
                     let mut n = 0u64;
-                    for _ in 0..rounds {
-                        r.shuffle(&mut order);
+                    for round in 0..rounds {
+                        // round 0: every thread walks the texts in the same order right after the barrier
+                        if round > 0 {
+                            r.shuffle(&mut order);
+                        }
                         for &i in &order {
-                            let got = run_one(&p, &mut s, &texts[i], tags);
+                            let got = run_one(&p, &mut s, &texts[i], tags, stored);
                             n += 1;
                             if got != base[i] && bad.len() < 3 {
                                 bad.push(format!("thread {ti} text {:?}: {:?} vs sequential {:?}", clip(&texts[i], 40), got, base[i]));
@@ -113,6 +138,8 @@ pub fn run_c08t(ctx: &mut Ctx, from: u64, to: u64, tiny: bool, threads_max: usiz
                 ctx.count("concurrent_predictions", n);
                 ctx.count("threads_started", n_threads as u64);
                 ctx.flag("cases_with_tag_prediction", tags);
+                ctx.flag("cases_storing_tag_scores", tags && stored);
+                ctx.flag("cases_starting_on_a_never_used_predictor", fresh_shared);
                 if !bad.is_empty() {
                     ctx.violation("C08:concurrent_use_of_one_predictor_changes_results", J::obj(vec![("differences", J::strs(&bad)), ("threads", J::i(n_threads)), ("model", model_json(&case.model))]));
                 }
